@@ -161,6 +161,10 @@ def tasks(tier, seed, selftest=False):
         for ch in ("block", "scc", "min"):
             for fam in ("B22", "CH4", "S2C2"):
                 S.append(dict(family=fam, skeleton=("seeds", ch), timebox=300, cube_k=3, nbits=20))
+    # a stub that already holds attractor data and is then reached again by attaching a source-SCC sub-diagram
+    for qy in ("seeds", "cands"):
+        for fam in ("P:NEST2+SW2", "P:U2+SW2"):
+            S.append(dict(family=fam, skeleton=("succ", qy, "scc"), timebox=(30 if fam.startswith("P:NEST2") else 8) if q else 600))
     # two independent switches: expand_attractor_seeds leaves stubs behind whose attractors are all covered by expanded
     # siblings - whatever it caches on them must still be a correct answer for the stub
     for sk in (("aseeds",), ("aseeds", "cands"), ("succ", "aseeds", "seeds"), ("aseeds", "everyseeds")):
